@@ -235,14 +235,15 @@ PROPS["C05"] = {
     "level": "exploration",
     "technique": "runtime monitoring: model-based query oracle (exact set, order, newest-k, redacted flag, scraper rule) over generated histories x per-plan filter shapes; debug+release, ASan",
     "level_text": ("After histories with few authors/kinds/tag values and clustered timestamps (ties, values differing "
-                   "in high bytes), ~30-60 filters per state are generated per index plan (ids; author+kind; "
+                   "in high bytes), 14-28 filters per state are generated - every index plan, alternately free-form and derived from what is stored (several present values / authors / kinds, a limit cutting the qualifying set; events dated beyond the wall clock exist) - (ids; author+kind; "
                    "author+tag; kind+tag; tag; author; scrape) x limit shapes x time-window shapes x one/several "
                    "values and letters x four screening functions x scraping allowances, and the result is compared "
                    "with the reference predicate over the model's retrievable set: no foreign, unretrievable, "
                    "screened-out or duplicate event, newest first, exact size min(limit, qualifying), nothing "
                    "omitted that is newer than something returned, redacted flag only with a redacted match, "
                    "refusal as scraping only when justified for some clock value in the call interval; the same "
-                   "constraint is also issued through other plans (all ids / all authors added)."),
+                   "constraint is also issued through other plans (all ids / all authors added). The check reports itself "
+                   "broken if any plan, a scraper refusal or a limit cut is never exercised."),
     "level_note": DB_NOTE + " Ids 00..00 / ff..ff are not generated (range bounds). Constraint names other than single letters are issued for the never-panics clause only.",
     "legs": lambda tier: db_legs("c05", tier, parallel_thorough=6),
     "rule": hist_rule("profile query", "at least three retrievable events when the filters are evaluated"),
@@ -417,7 +418,7 @@ def c14_legs(tier):
 PROPS["C14"] = {
     "level": "exploration",
     "technique": "runtime monitoring: schedule control at verif points (pause A at each point, run B/C, search a real-time-respecting serial order against the reference model), multi-core stress with an offline history checker (commit order = offset order, real-time windows), gdb-exhibited lock cycles for hangs, child-process growth scenarios",
-    "level_text": ("Leg 1 (deterministic): for ~40 catalogued operation pairs/triples on one store (same event 2-3x; "
+    "level_text": ("Leg 1 (deterministic): for ~55 catalogued operation pairs/triples on one store (a query over several authors / kinds / tag values parked inside its scan, at the caller's screen callback, while two stores commit; same event 2-3x; "
                    "older/newer/equal events for one replaceable or parameterised address, with a query; store vs "
                    "find_events/get_event_by_id/has_event and the reverse; remove vs query; deletion request vs store "
                    "or read of its target; address deletion vs store at the address; vanish vs store) operation A is "
